@@ -51,6 +51,64 @@ Qed.
 Lemma wrote_forest id f : w_wrote (enc_all id (tokens_of_forest f) w0) = existsb (reply_tree id) f.
 Proof. destruct (enc_forest id f w0 eq_refl) as [_ H]. exact H. Qed.
 
+(* ---- every way of writing funnels into the same detector ---- *)
+
+Lemma run_h_writes ws id ts k : forall s w seen,
+  run_h ws id (fold_right HWr k ts) s w seen = run_h ws id k s (enc_all id ts w) seen.
+Proof.
+  induction ts as [|t ts IH]; intros s w seen; [reflexivity|].
+  cbn [fold_right run_h]. rewrite IH. reflexivity.
+Qed.
+
+Lemma run_h_write ws id m ts k s w seen :
+  run_h ws id (h_write m ts k) s w seen = run_h ws id k s (enc_all id (method_tokens m ts) w) seen.
+Proof. apply run_h_writes. Qed.
+
+Lemma outer_tree n a : forall t d rest,
+  outer_from n a (S d) (tokens_of_tree t ++ rest) = tokens_of_tree t ++ outer_from n a (S d) rest.
+Proof.
+  fix IH 1. intros [m b kids|b|k b] d rest; cbn [tokens_of_tree app outer_from]; try reflexivity.
+  f_equal. rewrite <- !app_assoc.
+  assert (H : forall ks d' rest', outer_from n a (S d') (flat_map tokens_of_tree ks ++ rest')
+                                  = flat_map tokens_of_tree ks ++ outer_from n a (S d') rest').
+  { induction ks as [|k0 ks IHk]; intros d' rest'; cbn [flat_map app]; [reflexivity|].
+    rewrite <- app_assoc, IH, IHk. rewrite app_assoc. reflexivity. }
+  rewrite H. reflexivity.
+Qed.
+
+Lemma outer_el_tree n a n0 a0 kids :
+  outer_el n a (tokens_of_tree (Elem n0 a0 kids)) = tokens_of_tree (Elem n (a ++ filter not_xmlns a0) kids).
+Proof.
+  unfold outer_el. cbn [tokens_of_tree outer_from]. f_equal.
+  assert (H : forall ks rest', outer_from n a 1 (flat_map tokens_of_tree ks ++ rest')
+                               = flat_map tokens_of_tree ks ++ outer_from n a 1 rest').
+  { induction ks as [|k0 ks IHk]; intros rest'; cbn [flat_map app]; [reflexivity|].
+    rewrite <- app_assoc, (outer_tree n a k0 0), IHk. rewrite app_assoc. reflexivity. }
+  rewrite H. reflexivity.
+Qed.
+
+(* the element that reaches the detector when [t] is written by method [m] *)
+Definition method_tree (m : wmethod) (t : tree) : tree :=
+  match m, t with
+  | MEncodeElement n a, Elem _ a0 kids => Elem n (a ++ filter not_xmlns a0) kids
+  | _, _ => t
+  end.
+
+Lemma method_tokens_tree m n0 a0 kids :
+  method_tokens m (tokens_of_tree (Elem n0 a0 kids)) = tokens_of_tree (method_tree m (Elem n0 a0 kids)).
+Proof. destruct m; try reflexivity. apply outer_el_tree. Qed.
+
+Lemma wrote_tree id t : w_wrote (enc_all id (tokens_of_tree t) w0) = reply_tree id t.
+Proof.
+  pose proof (wrote_forest id [t]) as H. unfold tokens_of_forest in H. cbn [flat_map existsb] in H.
+  rewrite app_nil_r, orb_false_r in H. exact H.
+Qed.
+
+Lemma tbl_rc_funnel :
+  sv_rc_write_methods = [str "Encode"; str "EncodeElement"] /\ sv_rc_funnelled = 2 /\
+  sv_rc_direct_uses = 0 /\ sv_rc_delegations = 1.
+Proof. vm_compute. repeat split. Qed.
+
 (* the constants the rule depends on, as the source has them today *)
 Lemma tbl_error_is_no_request : needs_resp sv_iq_error = false /\ needs_resp sv_iq_result = false.
 Proof. vm_compute. split; reflexivity. Qed.
